@@ -371,7 +371,7 @@ class Case:
         mean, cov = RV.predictive(Kxx, Kxz, Ktz, mx, mz, m_u, S_u)
         alt = None
         if self.s == "CIQ":
-            alt = dict(mean=mean, cov=cov + 2 * self.jit * eye(n), text="(= closed form with the jitter added twice to the diagonal of Kxx)")
+            alt = dict(mean=mean, cov=cov + 2 * self.jit * eye(n), prior_cov=Kxx + 2 * self.jit * eye(n), text="(= closed form with the jitter added twice to the diagonal of Kxx)")
         return dict(mean=mean, cov=cov + self.jit * eye(n), kl=kl, prior_mean=mx, prior_cov=Kxx + self.jit * eye(n), kl_zero=True,
                     q_u=(m_u, S_u), alt=alt)
 
@@ -665,11 +665,15 @@ def _run(cell, g, fails):
                         elif same(out.covariance_matrix, torch.diag_embed(ref["cov"].diagonal(dim1=-1, dim2=-2)), tol):
                             note(fails, "(= diag of the closed form: the cross-covariances between the inputs are returned as 0)")
                     if is_prior and not delta and ref["prior_cov"] is not None:
-                        bcheck(fails, "prior-cov", out.covariance_matrix, ref["prior_cov"], tol, "q(u) = p(u) but cov of q(f) != prior cov")
+                        if not bcheck(fails, "prior-cov", out.covariance_matrix, ref["prior_cov"], tol, "q(u) = p(u) but cov of q(f) != prior cov"):
+                            if alt and "prior_cov" in alt and same(out.covariance_matrix, alt["prior_cov"], tol):
+                                note(fails, alt["text"])
             elif is_prior and not delta and ref["prior_cov"] is not None:
                 with fails.guard("prior-cov"):
-                    bcheck(fails, "prior-cov", out.variance, ref["prior_cov"].diagonal(dim1=-1, dim2=-2), tol,
-                           "q(u) = p(u) but variances of q(f) != prior variances")
+                    if not bcheck(fails, "prior-cov", out.variance, ref["prior_cov"].diagonal(dim1=-1, dim2=-2), tol,
+                                  "q(u) = p(u) but variances of q(f) != prior variances"):
+                        if alt and "prior_cov" in alt and same(out.variance, alt["prior_cov"].diagonal(dim1=-1, dim2=-2), tol):
+                            note(fails, alt["text"])
         # ---- KL
         if kl is not None and ref["kl"] is not None:
             with fails.guard("kl"):
